@@ -57,7 +57,14 @@ from x
     fn eval(&self, context: &RuleContext) -> Vec<LintResult> {
         // Get children of select_clause and the corresponding select keyword.
         let child_segments = FunctionalContext::new(context).segment().children(None);
-        let select_keyword = child_segments.first().unwrap();
+        // The keyword is not necessarily the first child: an earlier fix may have
+        // put a comment (and its line break) in front of it.
+        let select_keyword_seg = child_segments.find_first(Some(|sp: &ErasedSegment| {
+            sp.is_type(SyntaxKind::Keyword)
+        }));
+        let Some(select_keyword) = select_keyword_seg.first() else {
+            return Vec::new();
+        };
 
         // See if we have a select_clause_modifier.
         let select_clause_modifier_seg = child_segments.find_first(Some(|sp: &ErasedSegment| {
